@@ -333,6 +333,10 @@ ModelErr scalarBin(BinOp o, FKind ak, const Val &a, FKind bk, const Val &b,
             }
         }
         long x = a.i, y = b.i, z;
+        // keep the model inside the range where long arithmetic is exact
+        if (o == BO_MULTIPLY && (std::labs(x) > (1L << 31) || std::labs(y) > (1L << 31)) && x != 0 && y != 0) {
+            if (std::labs(x) > (1L << 20) && std::labs(y) > (1L << 20)) return ME_UNDEFINED;
+        }
         switch (o) {
             case BO_PLUS:       z = x + y; break;
             case BO_MINUS:      z = x - y; break;
@@ -399,6 +403,8 @@ ModelErr convertVal(FKind from, const Val &a, FKind to, Val &out)
             } else {
                 out = Val::n(a.i);
             }
+            // multi-terminal integers must fit a terminal
+            if (to == FK_MTI && (out.i >= TERM_LIMIT || out.i <= -TERM_LIMIT)) return ME_OVERFLOW;
             return ME_NONE;
         default:
             if (a.t == Val::R) out = a;
